@@ -10,7 +10,11 @@ LEVEL = {'diffx': 0, '.preamble': 1, '.meta': 1, '.change': 1, '..preamble': 2, 
          '...meta': 3, '...diff': 3}
 BLANKS = [b'\n', b'  \n', b'\t\n', b' \t \n', b'\x0b\n', b'\x0c\n']
 
-UNKNOWN_KEYS = ['x', 'my-option', 'X_1', 'zzz', 'Another-Key', 'q9', 'a_b-c']
+UNKNOWN_KEYS = ['x', 'my-option', 'X_1', 'zzz', 'Another-Key', 'q9', 'a_b-c',
+                # names that mean something INSIDE the library (parameter and attribute names): still just unknown options
+                'self', 'keep_bytes', 'preserve_trailing_newline', 'fp', 'options', 'section', 'content', 'newline', 'cls',
+                'kwargs', 'args', 'data', 'text', 'stream', 'linenum', 'level', 'type_', 'section_id', 'diff', 'metadata',
+                'chunk_size', 'valid_sections', 'encodings']
 UNKNOWN_VALS = ['value', '1', '-5', '007', 'a/b', '/x', '1.0', 'text/x-diff', '_', '-', '.', 'A.b_c-d/e', '12abc', '1_0']
 # digit strings around CPython's int/str conversion limit (rare: the model's decimal printing is quadratic)
 UNKNOWN_LONG_VALS = ['7' * 4300, '7' * 4301, '-' + '3' * 4400]
@@ -452,3 +456,25 @@ def to_ast(f):
                       Lst(blanks), c))
     trailing = [H(bytes.fromhex(b)[:-1]) for b in f.get('trailing', [])]
     return L(Bool(f['crlf']), Lst(secs), Lst(trailing))
+
+
+def longline_file(rng):
+    """A well-formed file whose preamble has a FIRST LINE longer than the usual buffer sizes (8192 bytes) ending in CRLF,
+    undeclared line endings, and a later CRLF line that contains a bare LF: detection has to look at the whole first line."""
+    n = rng.choice([8189, 8190, 8191, 8192, 8193, 16385, 70000])
+    indent = rng.choice([None, 2])
+    lines = ['y' * n, ' a\nb', 'last']
+    nl = '\r\n'
+    body = b''.join(b' ' * (indent or 0) + (l + nl).encode('utf-8') for l in lines)
+    opts = [('length', str(len(body)))]
+    if indent is not None:
+        opts.append(('indent', str(indent)))
+    rng.shuffle(opts)
+    text = nl.join(lines) + nl
+    secs = [dict(id='diffx', opts=[['version', '1.0'], ['encoding', 'utf-8']], blank=[], content=None, expect={}, enc=None, ast=None),
+            dict(id='.preamble', opts=[[k, v] for k, v in opts], blank=[], content=body.hex(), expect=dict(text=text),
+                 enc='utf-8', ast=None),
+            dict(id='.change', opts=[], blank=[], content=None, expect={}, enc=None, ast=None),
+            dict(id='..file', opts=[], blank=[], content=None, expect={}, enc=None, ast=None),
+            dict(id='...meta', opts=[['length', '3']], blank=[], content=b'{}\n'.hex(), expect=dict(metadata={}), enc='utf-8', ast=None)]
+    return dict(sections=secs, crlf=False, trailing=[])
